@@ -44,6 +44,10 @@ class Prop(common.PropertyCheck):
         for i in range(self.budget(6, 40)):
             yield {'k': 'gate', 'n': 6400, 'data': 'lattice', 'cont': 'array', 'bins': 'count80', 'f': ['0.1', '0.2', '0.3'][i % 3],
                    'sigma': ['tiny', 'three'][i % 2], 'nan': False, 'seed': rng.randrange(1 << 30)}
+        # per-axis smoothing widths of which exactly one is zero (no smoothing along that axis only); infinite events
+        for i in range(self.budget(40, 300)):
+            yield {'k': 'gate', 'n': [50, 200, 600][i % 3], 'data': ['clusters', 'ties', 'cont', 'uniform'][i % 4], 'cont': 'array', 'bins': ['edges', 'count', 'mixed'][i % 3],
+                   'f': ['rand', 'k/n', 'default'][i % 3], 'sigma': ['zero_x', 'zero_y'][i % 2], 'nan': i % 4 == 0, 'inf': i % 5 == 0, 'seed': rng.randrange(1 << 30)}
         for what in ('one_event_bin_mask', 'no_event_bin_mask'):
             yield {'k': 'bad', 'what': what}
         for what in ('f<0', 'f>1', 'f<0 tiny', 'f>1 tiny', 'f<0 all outside', 'one_channel', 'three_channels', 'three_channels_two_distinct', 'four_channels_two_distinct', 'one_event'):
@@ -112,6 +116,10 @@ class Prop(common.PropertyCheck):
             data = g
             xy = g.astype(np.float64)
             bins = [np.linspace(0, 2, 21), np.linspace(0, 2, 11)]
+        if case.get('inf') and cont != 'sample' and n >= 4 and bins_kind == 'edges':        # (bin counts need a finite data range to place the edges)
+            xy = np.array(xy, dtype=float)
+            xy[0, 0] = np.inf; xy[1, 1] = -np.inf; xy[n // 2, 0] = np.inf
+            data = xy
         scale = {'sample_linear': 'linear', 'sample_log': 'log', 'sample_logicle': 'logicle'}.get(bins_kind, 'logicle')
         fk = case['f']
         if fk in ('0.1', '0.2', '0.3'):
@@ -127,7 +135,10 @@ class Prop(common.PropertyCheck):
         else:
             f = float(r.uniform(0, 1))
         sk = case['sigma']
-        if sk in ('tiny', 'three'):
+        if sk in ('zero_x', 'zero_y'):
+            w = float(r.choice([2.0, 1.5, 3.0]))
+            sigma = (0.0, w) if sk == 'zero_x' else (w, 0.0)
+        elif sk in ('tiny', 'three'):
             sigma = 1e-4 if sk == 'tiny' else 3.0
         elif sk == 'pair_wide':
             # very unequal per-axis widths, the larger one beyond the grid size / 6
